@@ -339,7 +339,7 @@ PROPS["C02"]["level_text"] = (
     "have the same class keys and, under every key, related class fields and the same abstract entries at the same positions, per method name and per (method name, arguments) -- by induction over the record stream with one step lemma per record kind "
     "(the Header step is the obligation that exposed defect D7). Together: mapper == built(records) (u13) ~ collected classes (u14, u23) -> canonical bytes (u8) -> parse reads the same tables back (u20) -> both readers answer through one specification (u1 / u2). "
     "ASSUMED along this chain: the string-table and Pod round trips of watto, BTreeMap iteration order, and that the class section so produced is sorted by resolved name (what the reader's binary search needs).")
-PROPS["C02"]["not_decided"] = ["of the reader's representation invariant wf_cache, the strict order of the class section and the name order of every class's members are proved for what the writer collects (u23); the (name, params) order of the by-params records, string interning among a class's members and wf_member for every record are still assumed",
+PROPS["C02"]["not_decided"] = ["of the reader's representation invariant wf_cache, the strict order of the class section and the name order of every class's members are proved for what the writer collects (u23); the (name, parameters) order of each class's by-params records likewise; string interning among a class's members and wf_member for every record are still assumed",
                                "that watto's string table returns the inserted string for the offset it handed out (offset_of / tbl)"]
 PROPS["C09"]["level_text"] = PROPS["C09"]["level_text"].replace(
     "Sortedness of classes/members and the contents of the string section come from BTreeMap iteration order and watto::StringTable inside the collection loop and are assumed; `test()` accepting every such file is not decided.",
@@ -353,4 +353,4 @@ for _p in ("C02", "C09", "C10"):
     PROPS[_p].setdefault("assumed", []).append("u20: decoding the byte image of a header / a run of class records / a run of member records gives the records back (Pod round trip of watto; layouts pinned by Kani K1); PRGCACHE_MAGIC differs from its byte-swapped form (Kani K2)")
 
 PROPS["C09"]["not_decided"] = [x for x in PROPS["C09"].get("not_decided", []) if not x.startswith("strict sortedness of the class section")] + [
-    "(name, params) order of the by-params section and string-section validity (watto); the strict order of the class section by resolved name and the name order of each class's member records ARE proved for what the writer collects (u23, given BTreeMap's ascending iteration order and the string-table round trip)"]
+    "string-section validity (watto); the strict order of the class section by resolved name, the name order of each class's member records and the (name, parameters) order of its by-params records ARE proved for what the writer collects (u23, given BTreeMap's ascending iteration order and the string-table round trip)"]
